@@ -1,0 +1,1 @@
+//! Hooks for property C17 (empty until needed).
